@@ -1404,3 +1404,90 @@ func goQuotedSourceRule(w *World, r *Report, rule string) {
 	r.add(rule, nil, "texts handed to the reading entry points by Go code of the module", token.NoPos, "ok", fmt.Sprintf("%d examined", n))
 	r.floor(rule, "texts handed to the reading entry points", n, 5)
 }
+
+// preambleEntryReadRule: the read side of the preamble. Every value READWithPreamble (and the functions of the
+// package it is built from) stores into the placeholder table is what the reader made of the entry's text: the
+// first result of a call of the reader, on every path - never the text itself or something else decided by a
+// test of the text. Otherwise a value that PRINT wrote comes back as another value.
+func preambleEntryReadRule(w *World, r *Report, rule string) {
+	r.rule(rule, "every value READWithPreamble (and the functions of its package it is built from) stores into the placeholder table is the first result of a call of the reader's entry point on the entry's text, on every path: no entry is taken as a string, or as anything else, by a test of its text")
+	rp := w.Fn("", "READWithPreamble")
+	if rp == nil {
+		r.undecided(rule, nil, "READWithPreamble", token.NoPos, "function no longer resolves")
+		return
+	}
+	n := 0
+	for _, fn := range w.withPkgHelpers(rp) {
+		if fn == nil {
+			continue
+		}
+		for _, b := range fn.Blocks {
+			for _, in := range b.Instrs {
+				mu, ok := in.(*ssa.MapUpdate)
+				if !ok {
+					continue
+				}
+				mt, ok := mu.Map.Type().Underlying().(*types.Map)
+				if !ok || !isMalType(mt.Elem()) {
+					continue
+				}
+				n++
+				var walk func(x ssa.Value, depth int) bool
+				walk = func(x ssa.Value, depth int) bool {
+					if depth > 5 {
+						return false
+					}
+					switch y := x.(type) {
+					case *ssa.Extract:
+						if c, isCall := y.Tuple.(*ssa.Call); isCall {
+							sc := c.Call.StaticCallee()
+							if sc != nil && fnPkgPath(sc) == modPath+"/reader" {
+								return y.Index == 0
+							}
+							// a function of the package that hands on what the reader answered (in the same result
+							// position; the returns that report an error of their own hand on no value)
+							if sc != nil && fnPkgPath(sc) == fnPkgPath(rp) && len(sc.Blocks) > 0 {
+								all, some := true, false
+								for _, rt := range (&evalModel{}).returns(sc) {
+									ret := rt[0].(*ssa.Return)
+									if y.Index >= len(ret.Results) {
+										return false
+									}
+									if last := ret.Results[len(ret.Results)-1]; len(ret.Results) > 1 && isErrorType(last.Type()) && !isNilConst(resolveRet(last)) && isNilConst(resolveRet(ret.Results[y.Index])) {
+										continue
+									}
+									some = true
+									if !walk(unboxed(resolveRet(ret.Results[y.Index])), depth+1) {
+										all = false
+									}
+								}
+								return all && some
+							}
+						}
+					case *ssa.Phi:
+						for _, op := range y.Edges {
+							if !walk(unboxed(op), depth+1) {
+								return false
+							}
+						}
+						return len(y.Edges) > 0
+					case *ssa.Parameter:
+						if y.Parent() != rp && y.Parent() != nil {
+							args := w.callSiteArgs(y)
+							for _, a := range args {
+								if !walk(unboxed(a), depth+1) {
+									return false
+								}
+							}
+							return len(args) > 0
+						}
+					}
+					return false
+				}
+				okV := walk(unboxed(mu.Value), 0)
+				r.check(okV, rule, fn, "value stored into the placeholder table", mu.Pos(), "what the reader made of the entry's text", "the table entry is "+describeVal(nil, mu.Value, 0)+" on some path, not the reader's result for the entry's text: a value written by AddPreamble (PRINT of the value) comes back as something else")
+			}
+		}
+	}
+	r.floor(rule, "stores into the placeholder table", n, 1)
+}
